@@ -16,7 +16,7 @@ ASSUMPTIONS = ['non-degenerate: smallest eigenvalue of the reference (p+1)x(p+1)
 
 def bounds(tier):
     q = tier == 'quick'
-    return {'lattice': 'ZR(1)^N 3<=N<=%d, ZI(1)^N N<=%d, ZC5^N 3<=N<=%d' % ((6, 5, 4) if q else (7, 6, 5)),
+    return {'lattice': 'ZR(1)^N 3<=N<=%d, ZI(1)^N N<=%d, ZC5^N 3<=N<=%d' % ((6, 5, 4) if q else (9, 7, 6)),
             'families_N': [8, 9, 16] if q else [8, 9, 16, 33, 64, 200], 'orders': 'all 1..min(N-1,30)'}
 
 
@@ -27,13 +27,18 @@ def expected_clauses(tier):
 def shards(tier):
     q = tier == 'quick'
     out = []
-    for name, lo, hi in (('ZR1', 3, 6 if q else 7), ('ZI1', 3, 5 if q else 6), ('ZC5', 3, 4 if q else 5)):
+    for name, lo, hi in (('ZR1', 3, 6 if q else 9), ('ZI1', 3, 5 if q else 7), ('ZC5', 3, 4 if q else 6)):
         for n in range(lo, hi + 1):
-            if n >= 6:
-                for first in range(3 if name != 'ZC5' else 5):
-                    out.append(('lat', name, n, first))
+            na = 3 if name != 'ZC5' else 5
+            if na ** n > 20000:
+                for first in range(na):
+                    for second in range(na):
+                        out.append(('lat', name, n, [first, second]))
+            elif n >= 6:
+                for first in range(na):
+                    out.append(('lat', name, n, [first]))
             else:
-                out.append(('lat', name, n, None))
+                out.append(('lat', name, n, []))
     for N in ([8, 9, 16] if q else [8, 9, 16, 33, 64, 200]):
         out.append(('gen', N, False))
         out.append(('gen', N, True))
@@ -48,8 +53,8 @@ def run_shard(desc, R, tier):
     if desc[0] == 'lat':
         _, name, n, first = desc
         alpha, dt = _alpha(name)
-        it = itertools.product(alpha, repeat=n) if first is None else (
-            (alpha[first],) + t for t in itertools.product(alpha, repeat=n - 1))
+        pre = tuple(alpha[i] for i in first)
+        it = (pre + t for t in itertools.product(alpha, repeat=n - len(pre)))
         for s in it:
             x = np.array(s, dtype=dt)
             if not np.any(x):
